@@ -7,6 +7,7 @@ import QV.Proofs.Front11
 import QV.Proofs.A2A6
 import QV.Proofs.A2A7
 import QV.Proofs.A2A8
+import QV.Proofs.A2X3
 import QV.Model.Front
 /-!
 # C01 – Boolean expressions mean what the Python source means
@@ -696,14 +697,17 @@ theorem ast2ast_preserved_eq (p : SProg) (hp : okProg p = true) (L : List SStmt)
 open QV.A2A in
 /-- the list the statement rewriter returns is the result of the whole pass `ast2ast` when the two
 constant-folding passes and the multi-target pass have nothing to do -/
-theorem ast2ast_of_rw (aargs : Args) (body L : List SStmt) (st : RSt)
+theorem ast2ast_of_rw (aargs : Args) (ret : Option SExp) (body L : List SStmt) (st : RSt)
     (hres : rejectReserved (aargs.map (·.1)) body = .ok ()) (hf1 : foldSs body = .ok body)
+    (hargs : replaceArgs aargs = .ok aargs) (hret : replaceRet ret = .ok ret)
+    (hann : visitAnns (initSt aargs) (aargs.map (·.2)) = .ok ())
     (hmt : mtSs body = .ok body) (hrw : (rwSs [] body).run (initSt aargs) = .ok (L, st))
-    (hf2 : foldSs L = .ok L) : ∃ log, ast2ast aargs body = .ok (L, log) := by
-  have : ast2ast aargs body = .ok (L, st.log ++ (if body != body then ["fold-pre"] else [])
+    (hvr : visitRet st ret = .ok ())
+    (hf2 : foldSs L = .ok L) : ∃ log, ast2ast aargs ret body = .ok (L, log) := by
+  have : ast2ast aargs ret body = .ok (L, st.log ++ (if body != body then ["fold-pre"] else [])
       ++ (if body != body then ["multitarget"] else []) ++ (if L != L then ["fold-post"] else [])) := by
     unfold ast2ast
-    simp only [hres, hf1, hmt, hrw, hf2, bind, Except.bind, pure, Except.pure]
+    simp only [hres, hf1, hargs, hret, hann, hmt, hrw, hvr, hf2, bind, Except.bind, pure, Except.pure]
   exact ⟨_, this⟩
 
 open QV.A2A in
@@ -721,13 +725,14 @@ theorem C01_if (p : SProg) (hp : okProg p = true) (L : List SStmt) (st : RSt)
     (consts : List (Bool × Bool)) (hg : Sem.guardedLine ⟨p.args, p.ret, L.map toStmt⟩ = true)
     (defs : List (String × BExp)) (events : List String)
     (htr : translate Quirks.none consts ⟨p.args, p.ret, L.map toStmt⟩ = .ok (defs, events)) (ρ : Env) :
-    (∃ log, ast2ast (aargsOf p) p.body = .ok (L, log)) ∧
+    (∃ log, ast2ast (aargsOf p) (some (tyAnn p.ret)) p.body = .ok (L, log)) ∧
     ∃ sv, execProg p ρ = some sv ∧ (p.ret.names "_ret").map (runDefs defs ρ) = sv.bits ∧
       ∀ xv, Sem.semProgX ⟨p.args, p.ret, L.map toStmt⟩ ρ = some xv →
         Sem.Agree xv sv ∧
         ∀ (i : Nat) (b : Bool), xv.claim[i]? = some (some b) →
           ∀ name, (p.ret.names "_ret")[i]? = some name → runDefs defs ρ name = b := by
-  refine ⟨ast2ast_of_rw _ _ L st hres hf1 hmt hrw hf2, ?_⟩
+  refine ⟨ast2ast_of_rw _ _ _ L st hres hf1 (replaceArgs_aargsOf p) (replaceRet_tyAnn p.ret)
+    (visitAnns_aargsOf _ p) hmt hrw (visitRet_tyAnn st p.ret) hf2, ?_⟩
   obtain ⟨sv, hs, hbits, hx⟩ := C01_guarded ⟨p.args, p.ret, L.map toStmt⟩ consts hg defs events htr ρ
   exact ⟨sv, ast2ast_if_preserved p hp L st hrw ρ sv hs, hbits, hx⟩
 
@@ -765,7 +770,7 @@ theorem C01_for (p : SProg) (hp : okProg p = true) (L : List SStmt) (st : RSt)
     (consts : List (Bool × Bool)) (hg : Sem.guardedLine ⟨p.args, p.ret, L.map toStmt⟩ = true)
     (defs : List (String × BExp)) (events : List String)
     (htr : translate Quirks.none consts ⟨p.args, p.ret, L.map toStmt⟩ = .ok (defs, events)) (ρ : Env) :
-    (∃ log, ast2ast (aargsOf p) p.body = .ok (L, log)) ∧
+    (∃ log, ast2ast (aargsOf p) (some (tyAnn p.ret)) p.body = .ok (L, log)) ∧
     ∃ sv, execProg p ρ = some sv ∧ (p.ret.names "_ret").map (runDefs defs ρ) = sv.bits :=
   let ⟨h1, sv, h2, h3, _⟩ := C01_if p hp L st hres hf1 hmt hrw hf2 consts hg defs events htr ρ
   ⟨h1, sv, h2, h3⟩
@@ -789,5 +794,171 @@ example :
         Sem.guardedLine ⟨p.args, p.ret, L.map toStmt⟩ = true ∧
         ∃ defs ev, translate Quirks.none [] ⟨p.args, p.ret, L.map toStmt⟩ = .ok (defs, ev) := by
   refine ⟨by decide, rfl, rfl, rfl, _, _, rfl, rfl, by decide, _, _, rfl⟩
+
+/-! ## `ast2ast`: the expression-level rewrites (variable indices, builtins over tuples and matrix rows)
+
+`A2A.visitE` models `visit_Subscript` (`create_if_exp`), `__unroll_arg` and `visit_Call` on the source tree
+(`QV/Model/Ast2Ast.lean`; compared tree for tree with the real pass on every run, 396 systematic forms).  The theorems
+below say what these rewrites return for `Qlist` / `Qmatrix` / `Tuple` typed variables of **every shape** and that the
+returned expressions mean python's indexing / `len` / `sum` / `all` / `any` on the decoded element values
+(`pyIndex1`, `pyIndex2`, `pySum`, `pyAll`, `pyAny` of `QV/Model/SemSrc.lean`).  `Sem.semW` gives a subscript of a
+tuple-typed variable no value of its own (only `bool` / `Qint` variables have values), so the meaning is stated for an
+arbitrary family `acc` of expressions standing for the element accesses `L[a]` / `L[a][b]`, whose values are the decoded
+elements: the rewritten expression is exactly the chain over the accesses (`toP … = chain…P (subscripts)`), and the chain
+over any stand-ins has python's meaning.  All `…_partial`: they cover the rewritten form at the top of an expression, not
+yet inside the induction of `ast2ast_if_preserved`. -/
+
+open QV.A2A in
+/-- what `ReplaceTypeAnn` makes of `Qlist[T, n]` and `Qmatrix[T, n, m]`: the types `visit_Subscript` / `__unroll_arg`
+find in the environment (`n` rows, each a bare tuple of `m` elements) -/
+theorem qmatrix_type (T : SExp) (n m : Nat) :
+    replaceAnn (qlistAnn T n) = .ok (listTy T n) ∧ replaceAnn (qmatrixAnn T n m) = .ok (matrixTy T n m) :=
+  ⟨replaceAnn_qlist T n, replaceAnn_qmatrix T n m⟩
+
+open QV.A2A in
+/-- **C01_index1_partial** – `t[i]` with a variable index.  For a variable whose type has `n + 1` elements (`Qlist[T, n+1]`,
+`Tuple[…]`) and an index variable that is no constant of the environment, `visit_Subscript` returns the if-chain
+`t[0] if i == 0 else … else t[n]` of `create_if_exp`; and for every value `x ≤ n` of the index the chain, over any
+expressions `acc a` that hold the decoded elements `vals` (all of one type), has the value `pyIndex1 vals x`. -/
+theorem C01_index1_partial (st : RSt) (t i : String) (hd : String) (es : List SExp) (n : Nat) (hes : es.length = n + 1)
+    (hty : lookup st.types t = some (.ann (.sub (.name hd) (.tuple es)))) (hi : lookup st.consts i = none) :
+    (∃ E, visitE st (.sub (.name t) (.name i)) = .ok E ∧
+      toP E = chain1P (fun a => .subs t [(a : Int)]) i 0 n) ∧
+    ∀ (σ : Sem.SEnv) (acc : Nat → PExp) (vals : List Sem.SVal) (Tv : Option Nat) (wi x : Nat),
+      σ i = some (.int wi x) → x ≤ n → n < 65536 →
+      (∀ a, a ≤ n → ∃ v, pyIndex1 vals a = some v ∧ Sem.semW σ (acc a) = some v ∧ tyOf v = Tv) →
+      Sem.semW σ (chain1P acc i 0 n) = pyIndex1 vals x := by
+  refine ⟨⟨_, visitE_index1 st t i n (by rw [lenOfType_ann st t hd es hty, hes]) hi, toP_ifChain1 t i 0 n⟩, ?_⟩
+  intro σ acc vals Tv wi x hσ hx hn hacc
+  obtain ⟨vx, hvx, _, _⟩ := hacc x hx
+  rw [chain1_selects σ acc (fun a => (pyIndex1 vals a).getD (.bool false)) Tv i wi x n hσ hx hn (fun a ha => by
+    obtain ⟨v, hv, hs, ht⟩ := hacc a ha
+    simp only [hv, Option.getD_some]
+    exact ⟨hs, ht⟩)]
+  simp only [hvx, Option.getD_some]
+
+open QV.A2A in
+/-- **C01_index2_partial** – `m[i][j]` with two variable indices, **every shape**.  For a variable of type
+`Qmatrix[T, n+1, m+1]` (any `n`, `m`: square or not) `visit_Subscript` returns the if-chain of `create_if_exp` over the
+positions `(0,0) … (n, m)` row by row; and for every pair of index values `x ≤ n`, `y ≤ m` the chain, over any
+expressions `acc a b` that hold the decoded elements `rows` (all of one type), has the value `pyIndex2 rows x y`: the
+chain selects exactly element `[x][y]`, reads every element of the matrix and nothing else.  (This is the statement the
+defects `C01-qmatrix-maxj` and `C01-matrix-row-length` violated: with the number of columns taken from the number of
+rows, a `2 x 3` matrix never reached column 2 and a `3 x 2` matrix asked for the access `[a][2]`.) -/
+theorem C01_index2_partial (st : RSt) (L i j : String) (T : SExp) (n m : Nat)
+    (hty : lookup st.types L = some (.ann (matrixTy T (n + 1) (m + 1)))) (hj : lookup st.consts j = none) :
+    (∃ E, visitE st (.sub (.sub (.name L) (.name i)) (.name j)) = .ok E ∧
+      toP E = chain2P (fun a b => .subs L [(a : Int), (b : Int)]) i j (positions (n + 1) (m + 1))) ∧
+    ∀ (σ : Sem.SEnv) (acc : Nat → Nat → PExp) (rows : List (List Sem.SVal)) (Tv : Option Nat) (wi wj x y : Nat),
+      σ i = some (.int wi x) → σ j = some (.int wj y) → x ≤ n → y ≤ m → n + 1 < 65536 → m + 1 < 65536 →
+      (∀ a b, a ≤ n → b ≤ m → ∃ v, pyIndex2 rows a b = some v ∧ Sem.semW σ (acc a b) = some v ∧ tyOf v = Tv) →
+      Sem.semW σ (chain2P acc i j (positions (n + 1) (m + 1))) = pyIndex2 rows x y := by
+  refine ⟨⟨_, visitE_index2 st L i j n m (dimsOfType_matrix st L T n (m + 1) hty) hj, toP_ifChain2 L i j _⟩, ?_⟩
+  intro σ acc rows Tv wi wj x y hσi hσj hx hy hn hm hacc
+  obtain ⟨vxy, hvxy, _, _⟩ := hacc x y hx hy
+  rw [chain2_selects σ acc (fun a b => (pyIndex2 rows a b).getD (.bool false)) Tv i j wi wj x y (n + 1) (m + 1)
+    hσi hσj (by omega) (by omega) hn hm (fun a b ha hb => by
+      obtain ⟨v, hv, hs, ht⟩ := hacc a b (by omega) (by omega)
+      simp only [hv, Option.getD_some]
+      exact ⟨hs, ht⟩)]
+  simp only [hvxy, Option.getD_some]
+
+open QV.A2A in
+/-- the hypotheses of `C01_index2_partial` are satisfiable, on a `2 x 3` matrix: with the elements held by the variables
+`m.a.b` (the names the translator gives the bits of such an argument), index values `(1, 2)` select `m.1.2` -/
+example :
+    let σ : Sem.SEnv := fun s =>
+      if s = "i" then some (.int 2 1) else if s = "j" then some (.int 2 2)
+      else if s = "m.0.0" then some (.bool true) else if s = "m.0.1" then some (.bool false)
+      else if s = "m.0.2" then some (.bool false) else if s = "m.1.0" then some (.bool false)
+      else if s = "m.1.1" then some (.bool false) else if s = "m.1.2" then some (.bool true) else none
+    let acc : Nat → Nat → PExp := fun a b => .name s!"m.{a}.{b}"
+    let st : RSt := initSt [("m", matrixTy (.name "bool") 2 3), ("i", .sub (.name "Qint") (.const (.int 2))),
+      ("j", .sub (.name "Qint") (.const (.int 2)))]
+    lookup st.types "m" = some (.ann (matrixTy (.name "bool") 2 3)) ∧ lookup st.consts "j" = none ∧
+      Sem.semW σ (chain2P acc "i" "j" (positions 2 3)) = some (.bool true) ∧
+      pyIndex2 [[.bool true, .bool false, .bool false], [.bool false, .bool false, .bool true]] 1 2 = some (.bool true) := by
+  refine ⟨rfl, rfl, by decide, rfl⟩
+
+open QV.A2A in
+/-- **C01_unroll_partial** – `__unroll_arg`: a tuple-typed name unrolls into its elements `t[0] … t[n-1]`; a row `L[c]` of
+a variable whose type is a tuple of rows unrolls into `L[c][0] … L[c][k-1]` with `k` the length of **that row** (for
+`Qmatrix[T, n, m]`: `m`, whatever `n`; the repaired `C01-matrix-row-length`) -/
+theorem C01_unroll_partial (st : RSt) (t L : String) (es : List SExp) (T : SExp) (n m c : Nat)
+    (ht : lookup st.types t = some (.ann (.sub (.name "Tuple") (.tuple es))))
+    (hL : lookup st.types L = some (.ann (matrixTy T n m))) (hc : c < n) :
+    unrollArg st (.name t) = .ok (elems1 t es.length) ∧
+    unrollArg st (.sub (.name L) (.const (.int c))) = .ok (elems2 L c m) ∧
+    toPs (elems1 t es.length) = (List.range es.length).map (fun (a : Nat) => PExp.subs t [(a : Int)]) ∧
+    toPs (elems2 L c m) = (List.range m).map (fun (b : Nat) => PExp.subs L [(c : Int), (b : Int)]) :=
+  ⟨unrollArg_name st t es ht, unrollArg_matrix_row st L T n m c hc hL, toPs_elems1 t _, toPs_elems2 L c m⟩
+
+open QV.A2A in
+/-- **C01_builtins_row_partial** – `len`, `sum`, `all`, `any` over a matrix row `L[c]` (`L : Qmatrix[T, n, m]`, `c < n`):
+`len` becomes the constant `m`; `sum` the chain `L[c][0] + (L[c][1] + …)`; `all` / `any` the conjunction / disjunction of
+the `m` elements of the row.  And their meanings, for any expressions that hold the decoded elements of the row: `len`
+evaluates to `m`; the `+` chain over `Qint[w]` values below `2^w` to `pySum w` of them; the conjunction / disjunction to
+`pyAll` / `pyAny` of the bools. -/
+theorem C01_builtins_row_partial (st : RSt) (L : String) (T : SExp) (n m c : Nat) (hc : c < n)
+    (hL : lookup st.types L = some (.ann (matrixTy T n m))) :
+    visitE st (.call "len" [.sub (.name L) (.const (.int c))]) = .ok (.const (.int m)) ∧
+    visitE st (.call "sum" [.sub (.name L) (.const (.int c))]) = sumChain (elems2 L c m) ∧
+    visitE st (.call "all" [.sub (.name L) (.const (.int c))]) = .ok (.boolop true (elems2 L c m)) ∧
+    visitE st (.call "any" [.sub (.name L) (.const (.int c))]) = .ok (.boolop false (elems2 L c m)) ∧
+    (∀ x xs, sumChain (x :: xs) = .ok (sumE x xs) ∧ toP (sumE x xs) = sumP (toP x) (toPs xs)) ∧
+    (m < 65536 → ∀ σ, ∃ w, Sem.semW σ (toP (.const (.int m))) = some (.int w m)) ∧
+    (∀ (σ : Sem.SEnv) (w : Nat) (e : PExp) (es : List PExp) (v : Nat) (vs : List Nat),
+      List.Forall₂ (fun e v => Sem.semW σ e = some (.int w v) ∧ v < 2 ^ w) (e :: es) (v :: vs) →
+      Sem.semW σ (sumP e es) = some (pySum w (v :: vs))) ∧
+    (∀ (σ : Sem.SEnv) (e : PExp) (es : List PExp) (b : Bool) (bs : List Bool),
+      List.Forall₂ (fun e b => Sem.semW σ e = some (.bool b)) (e :: es) (b :: bs) →
+      Sem.semW σ (.boolop true (e :: es)) = some (pyAll (b :: bs)) ∧
+      Sem.semW σ (.boolop false (e :: es)) = some (pyAny (b :: bs))) := by
+  have hrow := unrollArg_matrix_row st L T n m c hc hL
+  have hv := visitE_const_sub st L (.int c)
+  refine ⟨?_, ?_, ?_, ?_, fun x xs => ⟨sumChain_cons x xs, toP_sumE x xs⟩, fun hm σ => semW_len σ m hm, ?_, ?_⟩
+  · rw [visitE_call1 st "len" _ _ hv, visitCall_len st _ _ hrow]; simp [elems2]
+  · rw [visitE_call1 st "sum" _ _ hv, visitCall_sum st _ _ hrow]
+  · rw [visitE_call1 st "all" _ _ hv, visitCall_all st _ _ hrow]
+  · rw [visitE_call1 st "any" _ _ hv, visitCall_any st _ _ hrow]
+  · intro σ w e es v vs h
+    cases h with
+    | cons he hes =>
+      rw [sumP_value σ w es vs e v he.1 he.2 hes]
+      simp [pySum]
+  · intro σ e es b bs h
+    exact ⟨by rw [boolop_value σ true e es b bs h]; simp [pyAll], by rw [boolop_value σ false e es b bs h]; simp [pyAny]⟩
+
+open QV.A2A in
+/-- **C01_builtins_tuple_partial** – the same over a tuple-typed argument `t` (`Tuple[…]`, `Qlist[T, n]`): `len(t)` is the
+number of elements, `sum(t)` / `all(t)` / `any(t)` the chains over `t[0] … t[n-1]` (their meanings: the last three
+conjuncts of `C01_builtins_row_partial`) -/
+theorem C01_builtins_tuple_partial (st : RSt) (t : String) (es : List SExp) (hd : isDunder t = false)
+    (ht : lookup st.types t = some (.ann (.sub (.name "Tuple") (.tuple es)))) :
+    visitE st (.call "len" [.name t]) = .ok (.const (.int es.length)) ∧
+    visitE st (.call "sum" [.name t]) = sumChain (elems1 t es.length) ∧
+    visitE st (.call "all" [.name t]) = .ok (.boolop true (elems1 t es.length)) ∧
+    visitE st (.call "any" [.name t]) = .ok (.boolop false (elems1 t es.length)) := by
+  have hun := unrollArg_name st t es ht
+  have hv := visitE_user_name st t hd
+  refine ⟨?_, ?_, ?_, ?_⟩
+  · rw [visitE_call1 st "len" _ _ hv, visitCall_len st _ _ hun]; simp [elems1]
+  · rw [visitE_call1 st "sum" _ _ hv, visitCall_sum st _ _ hun]
+  · rw [visitE_call1 st "all" _ _ hv, visitCall_all st _ _ hun]
+  · rw [visitE_call1 st "any" _ _ hv, visitCall_any st _ _ hun]
+
+open QV.A2A in
+/-- on a `2 x 3` matrix: `len(m[1])` is 3, `any(m[0])` is the disjunction of `m[0][0]`, `m[0][1]`, `m[0][2]`, and the
+`sum` over a row of `Qint[2]` values 3, 2, 1 is `pySum 2 [3, 2, 1] = 2` (6 modulo 4) -/
+example :
+    let st : RSt := initSt [("m", matrixTy (.name "bool") 2 3)]
+    visitE st (.call "len" [.sub (.name "m") (.const (.int 1))]) = .ok (.const (.int 3)) ∧
+    visitE st (.call "any" [.sub (.name "m") (.const (.int 0))])
+      = .ok (.boolop false [access2 "m" 0 0, access2 "m" 0 1, access2 "m" 0 2]) ∧
+    (let σ : Sem.SEnv := fun s => if s = "a" then some (.int 2 3) else if s = "b" then some (.int 2 2)
+        else if s = "c" then some (.int 2 1) else none
+     Sem.semW σ (sumP (.name "a") [.name "b", .name "c"]) = some (pySum 2 [3, 2, 1])) ∧
+    pySum 2 [3, 2, 1] = .int 2 2 := by
+  refine ⟨rfl, rfl, by decide, by decide⟩
 
 end QV.C01
